@@ -129,7 +129,7 @@ def write_turbomole(filename, cell):
     positions = cell.get_positions()
     lines = "$coord\n"
     for atom, pos in zip(symbols, positions):
-        lines += ("%16.12f" * 3 + "   %s\n") % (pos[0], pos[1], pos[2], atom.lower())
+        lines += (" %16.12f" * 3 + "   %s\n") % (pos[0], pos[1], pos[2], atom.lower())
     lines += "$end\n"
     f_coord = open(os.path.join(filename, "coord"), "w")
     f_coord.write(lines)
